@@ -153,6 +153,20 @@ func main() {
 		cmdSweep(os.Args[2:])
 	case "replay":
 		cmdReplay(os.Args[2:])
+	case "effects":
+		// debug aid: the write-effect summary of the named functions
+		w, err := loadWorld("/repo")
+		if err != nil {
+			fmt.Println("LOAD ERROR:", err)
+			os.Exit(2)
+		}
+		for _, k := range os.Args[2:] {
+			if fe := w.eff.F[k]; fe != nil {
+				fmt.Printf("%s: writes=%v params=%v allocates=%v loop=%v stmts=%d\n", k, fe.sortedWrites(), fe.ParamWrites, fe.Allocates, fe.HasLoop, fe.NStmts)
+			} else {
+				fmt.Println(k, ": no summary")
+			}
+		}
 	default:
 		fmt.Println("unknown command", os.Args[1])
 		os.Exit(2)
